@@ -414,6 +414,7 @@ register(
             "  use crate::verif_models::FoldMap as HashMap;\n"
             "  use crate::verif_models::FoldMap as BTreeMap;\n"
             "  use crate::verif_models::SmallSeq as Vec;\n"
+            "  use crate::verif_models::FoldSet as HashSet;\n"
             "  let mut live_docs = live_docs;"),
     suffix="  (pending_new, tombstones)\n}",
 )
